@@ -416,6 +416,8 @@ pub struct Profile {
     pub donedata: u64,
     /// per-mille probability that a (non-root) state declares a data element of its own
     pub state_data: u64,
+    /// per-mille probability that the mark of an evented transition also records _event.type / sendid / origin / origintype / invokeid
+    pub event_fields: u64,
 }
 
 impl Profile {
@@ -442,6 +444,7 @@ impl Profile {
             readonly_writes: 0,
             donedata: 0,
             state_data: 0,
+            event_fields: 0,
         }
     }
 }
@@ -869,7 +872,14 @@ impl<'a> G<'a> {
         if self.p.dm != Dm::Null {
             // ECMAScript: `_event` is unbound until the first event; `_event.name` in an eventless transition
             // taken at start-up throws there (legitimately), so the mark carries no argument
-            let args = if eventless && self.p.dm == Dm::Ecma { vec![] } else { vec![Expr::EventName] };
+            let args = if eventless && self.p.dm == Dm::Ecma {
+                vec![]
+            } else if !eventless && self.pm(self.p.event_fields) {
+                // the standard fields of _event as the transition's content sees them
+                vec![Expr::EventName, Expr::EventField("type".into()), Expr::EventField("sendid".into()), Expr::EventField("origin".into()), Expr::EventField("origintype".into()), Expr::EventField("invokeid".into())]
+            } else {
+                vec![Expr::EventName]
+            };
             t.content.insert(0, Exec::Mark(label, args));
             let extra = self.content(0, 2);
             t.content.extend(extra);
